@@ -592,6 +592,15 @@ func (s *S) Run(c *scen.Ctx) {
 	simrt.GoNamed("server", func() { srv.Serve() })
 	prx := new(VerifAll.Echo)
 	comm.StringToProxy("App.Srv.EchoObj@tcp -h 10.0.0.9 -p 1400 -t 30000", prx)
+	// the application may hold several proxy objects for the servant (StringToProxy in more
+	// than one place): they share the endpoint manager, its adapters and connections
+	prxs := []*VerifAll.Echo{prx}
+	if simrt.Draw(3, "c01.proxies") == 2 {
+		p2 := new(VerifAll.Echo)
+		comm.StringToProxy("App.Srv.EchoObj@tcp -h 10.0.0.9 -p 1400 -t 30000", p2)
+		prxs = append(prxs, p2)
+	}
+	c.Describe("proxy_objects", len(prxs))
 	ncallers := 1 + simrt.Draw(8, "c01.callers")
 	per := 1 + simrt.Draw(6, "c01.per")
 	c.Describe("callers", ncallers)
@@ -619,7 +628,7 @@ func (s *S) Run(c *scen.Ctx) {
 				n := nonce
 				s.mu.Unlock()
 				p := s.newPlan(c, n, ci, -1)
-				s.call(c, prx, p)
+				s.call(c, prxs[ci%len(prxs)], p)
 			}
 		})
 	}
